@@ -135,6 +135,9 @@ pub struct Ans {
     /// writer: call flush() before the first write
     #[serde(default)]
     pub flush_first: bool,
+    /// writer: the first operation on the writer is a write of an empty buffer
+    #[serde(default)]
+    pub empty_first: bool,
     /// writer: the parts are written with write_vectored (head and body as separate slices)
     #[serde(default)]
     pub vectored: bool,
